@@ -174,15 +174,15 @@ impl Remover {
                 let end_cursor = child_markers.len()
                     - Self::merge_child_markers(child_markers.iter().rev(), &mut end_marker);
 
-                let current = acc.len();
-                acc.push((
-                    marker,
-                    Some(current + (end_cursor - start_cursor).max(0) + 1),
-                ));
-                if start_cursor < end_cursor {
+                if start_cursor > end_cursor || marker.end >= end_marker.start {
+                    // A child marker joined both halves: nothing is left between them.
+                    acc.push((marker.start..end_marker.end, None));
+                } else {
+                    let current = acc.len();
+                    acc.push((marker, Some(current + (end_cursor - start_cursor) + 1)));
                     acc.extend(child_markers[start_cursor..end_cursor].to_owned());
+                    acc.push((end_marker, Some(current)));
                 }
-                acc.push((end_marker, Some(current)));
             } else {
                 acc.push((marker, None));
             }
